@@ -53,7 +53,7 @@ CHECKS = {
     'C17': {'engine': 'E1-kani', 'technique': T_KANI, 'note': N_KANI,
             'text': 'Facet: Kani proves that DateTime equality and ordering (through ScalarCow) are chronological for two instants within +-100000 s of a base date, each displayed in any whole-hour offset -12..+14. strftime directive semantics and parse/print round-trips are not covered yet (see DESIGN.md).'},
     'C13': {'engine': 'E2-mirsym', 'technique': T_MIR, 'note': N_MIR + '; strings are lists of symbolic code points (byte lengths derived from utf8_len); one grapheme per code point (no combining marks)',
-            'text': 'Facets built: real MIR of SliceFilter::evaluate + canonicalize_slice and TruncateFilter::evaluate on strings of 0..3 (quick) / 0..4 (thorough) symbolic Unicode characters with every i64 offset/length and symbolic ellipsis: the character-level reference result for every argument value, no panic. The other string filters and the chain-composition law are not covered yet. One known finding (truncate decides by byte length) is recorded: the repository suite pins that behaviour.'},
+            'text': 'Real MIR of 19 string filters (slice, truncate, strip, lstrip, rstrip, strip_newlines, upcase, downcase, capitalize, append, prepend, replace, replace_first, remove, remove_first, newline_to_br, first, last, size) on strings of 0..3 (quick) / 0..4 (thorough) symbolic Unicode characters with symbolic arguments, each compared with an independent symbolic reference of its documented function for every value, and FilterChain::evaluate over 0..4 abstract filters (left-to-right composition, first error wins). Not covered: split, join, truncatewords, default, multi-character case expansions, combining marks. One known finding (truncate decides by byte length) is recorded: the repository suite pins that behaviour.'},
     'C02': {'engine': 'E2-mirsym', 'technique': T_MIR, 'note': N_MIR + '; obligations borrowed from C05/C07/C13/C15 keep their stubs; only their panic roles count here',
             'text': 'Totality facets (panic-freedom, no division by zero, no out-of-range index, no split character) of the kernels that index, slice, divide or loop: cycle parsing + position arithmetic, integer ranges and loop attributes, iter_array, For/TableRow::render_to (symbolic cols incl. 0), augmented_get (every i64 index), slice and truncate on symbolic Unicode strings, plus/minus/times/divided_by/modulo/abs. Filters not listed (other string filters, html/url, date, sort, jekyll/shopify/extra) and the valid-UTF-8 clause are not covered.'},
 }
